@@ -1,6 +1,7 @@
 package metadata
 
 import (
+	"fmt"
 	"strings"
 
 	"github.com/llir/llvm/internal/enc"
@@ -48,6 +49,16 @@ func dwarfTagString(tag enum.DwarfTag) string {
 	s := tag.String()
 	if strings.HasPrefix(s, "DwarfTag(") && strings.HasSuffix(s, ")") {
 		return s[len("DwarfTag(") : len(s)-len(")")]
+	}
+	return s
+}
+
+// enumString returns the keyword of the given enum value, or its number if the
+// value has no keyword (the stringer output `Type(N)` is not valid syntax).
+func enumString(v fmt.Stringer) string {
+	s := v.String()
+	if pos := strings.IndexByte(s, '('); pos != -1 && strings.HasSuffix(s, ")") {
+		return s[pos+1 : len(s)-len(")")]
 	}
 	return s
 }
